@@ -49,42 +49,39 @@ namespace S
 def max6 := 63
 def max14 := 16446
 def enc (v : Nat) : List Nat :=
-  if v ≤ max6 then encLevel 0 0 0 v
-  else if v ≤ max14 then encLevel 64 1 max6 v
-  else encVar 128 max14 1 v
+  if v ≤ 63 then encLevel 0 0 0 v
+  else if v ≤ 16446 then encLevel 64 1 63 v
+  else encVar 128 16446 1 v
 def len (v : Nat) : Nat :=
-  if v ≤ max6 then 1 else if v ≤ max14 then 2 else lenVar max14 1 v
+  if v ≤ 63 then 1 else if v ≤ 16446 then 2 else lenVar 16446 1 v
 /-- `varintSplitGetLenQuick_` on the type byte -/
 def getLenQuick (b0 : Nat) : Nat :=
-  1 + (if b0 / 64 = 2 then b0 % 64 else b0 / 64)
+  1 + (if 128 ≤ b0 ∧ b0 < 192 then b0 % 64 else b0 / 64)
 /-- `varintSplitGetLen_` (switch form; 0 for the reserved prefix 11) -/
 def getLen (b0 : Nat) : Nat :=
-  match b0 / 64 with
-  | 0 => 1 | 1 => 2 | 2 => 1 + b0 % 64 | _ => 0
+  if b0 < 64 then 1 else if b0 < 128 then 2 else if b0 < 192 then 1 + b0 % 64 else 0
 /-- `varintSplitGet_` → (value, length); the reserved prefix gives (0,0) -/
 def dec (bs : List Nat) : Option (Nat × Nat) :=
   match bs with
   | [] => none
   | b0 :: rest =>
-    match b0 / 64 with
-    | 0 => decLevel 0 0 b0 rest
-    | 1 => decLevel 1 max6 b0 rest
-    | 2 => decVar max14 (b0 % 64) rest
-    | _ => some (0, 0)
+    if b0 < 64 then decLevel 0 0 b0 rest
+    else if b0 < 128 then decLevel 1 63 b0 rest
+    else if b0 < 192 then decVar 16446 (b0 % 64) rest
+    else some (0, 0)
 def encRev (v : Nat) : List Nat :=
-  if v ≤ max6 then encLevelRev 0 0 0 v
-  else if v ≤ max14 then encLevelRev 64 1 max6 v
-  else encVarRev 128 max14 1 v
+  if v ≤ 63 then encLevelRev 0 0 0 v
+  else if v ≤ 16446 then encLevelRev 64 1 63 v
+  else encVarRev 128 16446 1 v
 /-- `varintSplitReversedGet_`: `bs` ends with the type byte -/
 def decRev (bs : List Nat) : Option (Nat × Nat) :=
   match bs.reverse with
   | [] => none
   | b0 :: r =>
-    match b0 / 64 with
-    | 0 => decLevel 0 0 b0 r
-    | 1 => decLevel 1 max6 b0 r
-    | 2 => decVarRev max14 (b0 % 64) r
-    | _ => some (0, 0)
+    if b0 < 64 then decLevel 0 0 b0 r
+    else if b0 < 128 then decLevel 1 63 b0 r
+    else if b0 < 192 then decVarRev 16446 (b0 % 64) r
+    else some (0, 0)
 end S
 
 /-! ### varintSplitFull (00 / 01 / 10 embedded, 11 var; never-shrink ⇒ minW = 2) -/
@@ -93,40 +90,37 @@ def max6 := 63
 def max14 := 16446
 def max22 := 4210749
 def enc (v : Nat) : List Nat :=
-  if v ≤ max6 then encLevel 0 0 0 v
-  else if v ≤ max14 then encLevel 64 1 max6 v
-  else if v ≤ max22 then encLevel 128 2 max14 v
-  else encVar 192 max22 2 v
+  if v ≤ 63 then encLevel 0 0 0 v
+  else if v ≤ 16446 then encLevel 64 1 63 v
+  else if v ≤ 4210749 then encLevel 128 2 16446 v
+  else encVar 192 4210749 2 v
 def len (v : Nat) : Nat :=
-  if v ≤ max6 then 1 else if v ≤ max14 then 2 else if v ≤ max22 then 3 else lenVar max22 2 v
+  if v ≤ 63 then 1 else if v ≤ 16446 then 2 else if v ≤ 4210749 then 3 else lenVar 4210749 2 v
 def getLenQuick (b0 : Nat) : Nat :=
-  1 + (if b0 / 64 = 3 then b0 % 16 else b0 / 64)
+  1 + (if 192 ≤ b0 then b0 % 16 else b0 / 64)
 def getLen (b0 : Nat) : Nat :=
-  match b0 / 64 with
-  | 0 => 1 | 1 => 2 | 2 => 3 | _ => 1 + b0 % 16
+  if b0 < 64 then 1 else if b0 < 128 then 2 else if b0 < 192 then 3 else 1 + b0 % 16
 def dec (bs : List Nat) : Option (Nat × Nat) :=
   match bs with
   | [] => none
   | b0 :: rest =>
-    match b0 / 64 with
-    | 0 => decLevel 0 0 b0 rest
-    | 1 => decLevel 1 max6 b0 rest
-    | 2 => decLevel 2 max14 b0 rest
-    | _ => decVar max22 (b0 % 16) rest
+    if b0 < 64 then decLevel 0 0 b0 rest
+    else if b0 < 128 then decLevel 1 63 b0 rest
+    else if b0 < 192 then decLevel 2 16446 b0 rest
+    else decVar 4210749 (b0 % 16) rest
 def encRev (v : Nat) : List Nat :=
-  if v ≤ max6 then encLevelRev 0 0 0 v
-  else if v ≤ max14 then encLevelRev 64 1 max6 v
-  else if v ≤ max22 then encLevelRev 128 2 max14 v
-  else encVarRev 192 max22 2 v
+  if v ≤ 63 then encLevelRev 0 0 0 v
+  else if v ≤ 16446 then encLevelRev 64 1 63 v
+  else if v ≤ 4210749 then encLevelRev 128 2 16446 v
+  else encVarRev 192 4210749 2 v
 def decRev (bs : List Nat) : Option (Nat × Nat) :=
   match bs.reverse with
   | [] => none
   | b0 :: r =>
-    match b0 / 64 with
-    | 0 => decLevel 0 0 b0 r
-    | 1 => decLevel 1 max6 b0 r
-    | 2 => decLevel 2 max14 b0 r
-    | _ => decVarRev max22 (b0 % 16) r
+    if b0 < 64 then decLevel 0 0 b0 r
+    else if b0 < 128 then decLevel 1 63 b0 r
+    else if b0 < 192 then decLevel 2 16446 b0 r
+    else decVarRev 4210749 (b0 % 16) r
 end F
 
 /-! ### varintSplitFullNoZero (values ≥ 1; first level stores v-1) -/
@@ -135,68 +129,63 @@ def max6 := 64
 def max14 := 16447
 def max22 := 4210750
 def enc (v : Nat) : List Nat :=
-  if v ≤ max6 then encLevel 0 0 1 v
-  else if v ≤ max14 then encLevel 64 1 max6 v
-  else if v ≤ max22 then encLevel 128 2 max14 v
-  else encVar 192 max22 2 v
+  if v ≤ 64 then encLevel 0 0 1 v
+  else if v ≤ 16447 then encLevel 64 1 64 v
+  else if v ≤ 4210750 then encLevel 128 2 16447 v
+  else encVar 192 4210750 2 v
 def len (v : Nat) : Nat :=
-  if v ≤ max6 then 1 else if v ≤ max14 then 2 else if v ≤ max22 then 3 else lenVar max22 2 v
+  if v ≤ 64 then 1 else if v ≤ 16447 then 2 else if v ≤ 4210750 then 3 else lenVar 4210750 2 v
 def getLenQuick (b0 : Nat) : Nat :=
-  1 + (if b0 / 64 = 3 then b0 % 16 else b0 / 64)
+  1 + (if 192 ≤ b0 then b0 % 16 else b0 / 64)
 def getLen (b0 : Nat) : Nat :=
-  match b0 / 64 with
-  | 0 => 1 | 1 => 2 | 2 => 3 | _ => 1 + b0 % 16
+  if b0 < 64 then 1 else if b0 < 128 then 2 else if b0 < 192 then 3 else 1 + b0 % 16
 def dec (bs : List Nat) : Option (Nat × Nat) :=
   match bs with
   | [] => none
   | b0 :: rest =>
-    match b0 / 64 with
-    | 0 => decLevel 0 1 b0 rest
-    | 1 => decLevel 1 max6 b0 rest
-    | 2 => decLevel 2 max14 b0 rest
-    | _ => decVar max22 (b0 % 16) rest
+    if b0 < 64 then decLevel 0 1 b0 rest
+    else if b0 < 128 then decLevel 1 64 b0 rest
+    else if b0 < 192 then decLevel 2 16447 b0 rest
+    else decVar 4210750 (b0 % 16) rest
 def encRev (v : Nat) : List Nat :=
-  if v ≤ max6 then encLevelRev 0 0 1 v
-  else if v ≤ max14 then encLevelRev 64 1 max6 v
-  else if v ≤ max22 then encLevelRev 128 2 max14 v
-  else encVarRev 192 max22 2 v
+  if v ≤ 64 then encLevelRev 0 0 1 v
+  else if v ≤ 16447 then encLevelRev 64 1 64 v
+  else if v ≤ 4210750 then encLevelRev 128 2 16447 v
+  else encVarRev 192 4210750 2 v
 def decRev (bs : List Nat) : Option (Nat × Nat) :=
   match bs.reverse with
   | [] => none
   | b0 :: r =>
-    match b0 / 64 with
-    | 0 => decLevel 0 1 b0 r
-    | 1 => decLevel 1 max6 b0 r
-    | 2 => decLevel 2 max14 b0 r
-    | _ => decVarRev max22 (b0 % 16) r
+    if b0 < 64 then decLevel 0 1 b0 r
+    else if b0 < 128 then decLevel 1 64 b0 r
+    else if b0 < 192 then decLevel 2 16447 b0 r
+    else decVarRev 4210750 (b0 % 16) r
 end NZ
 
 /-! ### varintSplitFull16 (minimum two bytes; var level at least 4 payload bytes) -/
 namespace S16
 def max14 := 16383
-def max22 := 16383 + 4194303
-def max30 := 16383 + 4194303 + 1073741823
+def max22 := 4210686
+def max30 := 1077952509
 def enc (v : Nat) : List Nat :=
-  if v ≤ max14 then encLevel 0 1 0 v
-  else if v ≤ max22 then encLevel 64 2 max14 v
-  else if v ≤ max30 then encLevel 128 3 max22 v
-  else encVar 192 max30 4 v
+  if v ≤ 16383 then encLevel 0 1 0 v
+  else if v ≤ 4210686 then encLevel 64 2 16383 v
+  else if v ≤ 1077952509 then encLevel 128 3 4210686 v
+  else encVar 192 1077952509 4 v
 def len (v : Nat) : Nat :=
-  if v ≤ max14 then 2 else if v ≤ max22 then 3 else if v ≤ max30 then 4 else lenVar max30 4 v
+  if v ≤ 16383 then 2 else if v ≤ 4210686 then 3 else if v ≤ 1077952509 then 4 else lenVar 1077952509 4 v
 def getLenQuick (b0 : Nat) : Nat :=
-  if b0 / 64 = 3 then 1 + b0 % 16 else 2 + b0 / 64
+  if 192 ≤ b0 then 1 + b0 % 16 else 2 + b0 / 64
 def getLen (b0 : Nat) : Nat :=
-  match b0 / 64 with
-  | 0 => 2 | 1 => 3 | 2 => 4 | _ => 1 + b0 % 16
+  if b0 < 64 then 2 else if b0 < 128 then 3 else if b0 < 192 then 4 else 1 + b0 % 16
 def dec (bs : List Nat) : Option (Nat × Nat) :=
   match bs with
   | [] => none
   | b0 :: rest =>
-    match b0 / 64 with
-    | 0 => decLevel 1 0 b0 rest
-    | 1 => decLevel 2 max14 b0 rest
-    | 2 => decLevel 3 max22 b0 rest
-    | _ => decVar max30 (b0 % 16) rest
+    if b0 < 64 then decLevel 1 0 b0 rest
+    else if b0 < 128 then decLevel 2 16383 b0 rest
+    else if b0 < 192 then decLevel 3 4210686 b0 rest
+    else decVar 1077952509 (b0 % 16) rest
 end S16
 
 end Varint.Split
